@@ -378,7 +378,7 @@ def main(tier, seed):
         pairs.append((dict(a, name="A%d" % i), dict(b, name="B%d" % i)))
     ncur = len(pairs)
     rng = random.Random(seed)
-    nrand = 200 if tier == "quick" else 2000
+    nrand = 200 if tier == "quick" else 6000
     for i in range(nrand):
         pairs.append(tuple(gen_pair(rng, i)))
     K = 2 if tier == "quick" else 3
